@@ -29,7 +29,7 @@ ASSUMPTIONS = [
 
 
 def budget(tier):
-    return 6000 if tier == "quick" else 50000
+    return 10000 if tier == "quick" else 50000
 
 
 @st.composite
